@@ -16,8 +16,8 @@ from . import c13
 
 OPS = {1: 'add_track', 2: 'tracks_append', 3: 'tracks_remove', 4: 'msg_append', 5: 'msg_insert',
        6: 'msg_delete', 7: 'msg_time', 8: 'set_tpb', 9: 'set_type', 10: 'iterate', 11: 'length',
-       12: 'merged_track', 13: 'save', 14: 'play', 15: 'msg_attr', 16: 'msg_replace', 17: 'msg_swap', 18: 'track_slice', 19: 'track_name'}
-ALL_OPS = '{"add_track", "tracks_append", "tracks_remove", "msg_append", "msg_insert", "msg_delete", "msg_time", "msg_attr", "msg_replace", "msg_swap", "track_slice", "track_name", "set_tpb", "set_type", "iterate", "length", "merged_track", "play", "save"}'
+       12: 'merged_track', 13: 'save', 14: 'play', 15: 'msg_attr', 16: 'msg_replace', 17: 'msg_swap', 18: 'track_slice', 19: 'track_name', 20: 'track_double', 21: 'iter_nested'}
+ALL_OPS = '{"add_track", "tracks_append", "tracks_remove", "msg_append", "msg_insert", "msg_delete", "msg_time", "msg_attr", "msg_replace", "msg_swap", "track_slice", "track_name", "track_double", "set_tpb", "set_type", "iterate", "length", "merged_track", "play", "iter_nested", "save"}'
 
 
 def cfg(maxops, memo, opset, emit=True):
@@ -91,6 +91,14 @@ def observe(mid, op):
     try:
         if op == 'iterate':
             return [(ident_of(m), m.time, type(m).__name__) for m in mid]
+        if op == 'iter_nested':
+            # another observation is made while this iteration is suspended
+            out = []
+            for k, m in enumerate(mid):
+                out.append((ident_of(m), m.time, type(m).__name__))
+                if k == 0:
+                    mid.length
+            return out
         if op == 'length':
             return mid.length
         if op == 'merged_track':
@@ -111,6 +119,24 @@ def observe(mid, op):
                 mm.time = saved
     except Exception as e:
         return ('raises', type(e).__name__)
+
+
+def nested_play(mid):
+    """play() during which the length is read after the first yielded message."""
+    import mido.midifiles.midifiles as mm
+    from fractions import Fraction
+    ft = c13.FakeTime(Fraction(1, 1000))
+    saved = mm.time
+    mm.time = ft
+    try:
+        out = []
+        for k, m in enumerate(mid.play(meta_messages=True, now=ft.time)):
+            out.append((ident_of(m), round(float(ft.now), 9)))
+            if k == 0:
+                mid.length
+        return out
+    finally:
+        mm.time = saved
 
 
 def replay_history(hist):
@@ -139,6 +165,8 @@ def replay_history(hist):
                 m.note, m.channel = c % 128, c // 128
         elif op == 'msg_replace':
             mid.tracks[a - 1][b - 1] = mk(mid.tracks[a - 1][b - 1].time, c)
+        elif op == 'track_double':
+            mid.tracks[a - 1] = mid.tracks[a - 1] * 2
         elif op == 'track_slice':
             mid.tracks[a - 1] = mid.tracks[a - 1][1:]
             if type(mid.tracks[a - 1]) is not mido.MidiTrack:
@@ -157,23 +185,23 @@ def replay_history(hist):
         # the live contents are what the specification says they are
         live = [[(m.time, ident_of(m)) for m in t] for t in mid.tracks]
         if live != tracks or mid.type != ftype or mid.ticks_per_beat != tpb:
-            key = 'observation-changed-contents/' + op if op in ('iterate', 'length', 'merged_track', 'save', 'play') \
+            key = 'observation-changed-contents/' + op if op in ('iterate', 'length', 'merged_track', 'save', 'play', 'iter_nested') \
                 else 'edit-effect/' + op
             return key, 'step %d (%s): live contents %r, specification %r' % (n, op, live, tracks)
-        if op in ('iterate', 'length', 'merged_track', 'save', 'play'):
+        if op in ('iterate', 'length', 'merged_track', 'save', 'play', 'iter_nested'):
             got = observe(mid, op)
-            ref = observe(fresh(ftype, tpb, tracks), op)
+            ref = observe(fresh(ftype, tpb, tracks), 'iterate' if op == 'iter_nested' else op)
             if got != ref:
                 ops = [h[0] for h in hist[:n + 1]]
                 return ('stale/' + op, 'step %d: %s gave %r, a fresh file with the same contents gives %r (history %s)' % (
                     n, op, _short(got), _short(ref), ' '.join(ops)))
-            if op in ('iterate', 'merged_track') and ftype != 2:
+            if op in ('iterate', 'merged_track', 'iter_nested') and ftype != 2:
                 ids = [x[0] for x in got]
                 if ids != [i for dt, i in seen]:
                     return 'order/' + op, 'step %d: %s ids %r, specification %r' % (n, op, ids, seen)
                 if op == 'merged_track' and [(x[1], x[0]) for x in got] != seen:
                     return 'merged/' + op, 'step %d: merged_track %r, specification %r' % (n, got, seen)
-            if ftype == 2 and op in ('iterate', 'length', 'merged_track', 'play') and \
+            if ftype == 2 and op in ('iterate', 'length', 'merged_track', 'play', 'iter_nested') and \
                     not (isinstance(got, tuple) and got[0] == 'raises'):
                 return 'type2/' + op, 'step %d: %s on a type 2 file did not raise' % (n, op)
     return None
@@ -189,7 +217,7 @@ def worker(lines):
     for line in lines:
         hist = parse_row(core.ints_of(line))
         res['n'] += 1
-        res['counts']['observations'] += sum(1 for h in hist if h[0] in ('iterate', 'length', 'merged_track', 'save', 'play'))
+        res['counts']['observations'] += sum(1 for h in hist if h[0] in ('iterate', 'length', 'merged_track', 'save', 'play', 'iter_nested'))
         r = replay_history(hist)
         if r and len(res['viol']) < 10:
             res['viol'].append(('fileobj/' + r[0], {'hist': hist}, r[1]))
@@ -199,6 +227,15 @@ def worker(lines):
 
 
 def replay(case):
+    if 'fixed' in case:
+        tracks = [[tuple(x) for x in t] for t in case['fixed']]
+        for op in ('iter_nested', 'play'):
+            mid = fresh(1, 480, tracks)
+            got = observe(mid, op) if op != 'play' else nested_play(mid)
+            ref = observe(fresh(1, 480, tracks), 'iterate' if op == 'iter_nested' else op)
+            if got != ref:
+                return '%s interleaved with another observation differs from a fresh file' % op
+        return None
     hist = [(h[0], h[1], h[2], h[3], h[4], h[5], [[tuple(x) for x in t] for t in h[6]],
              [tuple(x) for x in h[7]]) for h in case['hist']]
     r = replay_history(hist)
@@ -222,6 +259,21 @@ def run(ctx):
                            timeout=3400, heap='16g')
         pr.finish()
         ctx.add_tlc(res, 'MidiFileObj Memo=none ops=%d' % maxops)
+    # tempo maps (two set_tempo values, the first after tick 0) observed while another
+    # observation of the same file is suspended
+    for tracks in ([[(0, 12), (480, 11), (0, 15), (480, 13), (0, 0)]],
+                   [[(240, 12), (240, 11), (240, 18), (240, 14)], [(100, 13), (700, 16)]],
+                   [[(0, 11), (480, 12), (480, 13)]]):
+        hist = [('iter_nested', 0, 0, 0, 1, 480, tracks, [])]
+        mid = fresh(1, 480, tracks)
+        for op in ('iter_nested', 'play', 'iterate'):
+            got = observe(mid, op) if op != 'play' else nested_play(mid)
+            ref = observe(fresh(1, 480, tracks), 'iterate' if op == 'iter_nested' else op)
+            ctx.replayed += 1
+            if got != ref:
+                ctx.violation('fileobj/stale/%s-during-other-observation' % op, {'fixed': tracks},
+                              '%s interleaved with another observation gave %s, a fresh file gives %s' % (
+                                  op, _short(got), _short(ref)))
     ctx.exhaustive = True
     ctx.constants = {'plans': plans}
     ctx.assumptions += ['observations are compared with a freshly built MidiFile of identical contents and with the specification value (merge order)',
